@@ -16,6 +16,9 @@ def classify(events, i, why):
     if cls == "snapshot-not-isolated":
         return "snapshot-not-isolated", "scribbling over the snapshots handed to callbacks changed the execution (verdict %s vs %s, same snapshots=%s, same calls=%s)" % (
             why["with"], why["scribbled"], why["snaps"], why["calls"])
+    if cls == "fanout":
+        return "fanout", "debug.NewDebugger fan-out changes the verdict or not every attached handler sees the documented callback stream (verdict %s vs %s, same calls=%s)" % (
+            why["with"], why["fan"], why["calls"])
     if cls == "lifecycle":
         return "lifecycle:%s" % why["final"], "callback stream is not in the documented lifecycle order (automaton ends in %s after %d callbacks)" % (why["final"], why["n"])
     if cls == "stack":
